@@ -60,6 +60,8 @@ var executeLifecycleStage = step.LifecycleStage{
 	NextStages: map[string]dgraph.DependencyType{
 		string(StageIDOutputs): dgraph.AndDependency,
 		string(StageIDFailed):  dgraph.CompletionAndDependency,
+		// A step that is closed while it waits for its items goes from here to closed.
+		string(StageIDClosed): dgraph.CompletionAndDependency,
 	},
 	Fatal: false,
 }
